@@ -23,6 +23,8 @@ def build_envs(group):
         envs = cb.Environments.from_bandit_synthetic(**kw)
     elif kind == "tagged":
         envs = cb.Environments(K.TaggedEnv(**kw))
+    elif kind == "cached":
+        envs = cb.Environments(K.CachedEnv(**kw))
     elif kind == "supervised":
         X = [tuple(r) for r in kw["X"]]
         if kw.get("via") == "source":
@@ -226,6 +228,27 @@ def run_inproc(spec, result_file=None, seed_kw=True, log=None, config=(1, 0, 0))
     install()
     reset_coba_globals()        # a reference run models a fresh interpreter: no process-global leftovers from earlier runs
     quiet_context(sink)
+    cache_dir = _maybe_disk_cacher(spec)
+    try:
+        return _run_inproc(spec, result_file, config, sink)
+    finally:
+        if cache_dir:
+            import shutil
+            shutil.rmtree(cache_dir, ignore_errors=True)
+
+
+def _maybe_disk_cacher(spec):
+    """Specs with cache-backed environments run with a DiskCacher on a private directory (fresh for every execution)."""
+    if not any(g["src"][0] == "cached" for g in spec["envs"]):
+        return None
+    import os, tempfile
+    from coba.context import CobaContext, DiskCacher
+    d = tempfile.mkdtemp(prefix="expc_", dir="/dev/shm" if os.path.isdir("/dev/shm") else None)
+    CobaContext.cacher = DiskCacher(d)
+    return d
+
+
+def _run_inproc(spec, result_file, config, sink):
     exp, objs = build_experiment(spec)
     kw = dict(processes=config[0], maxchunksperchild=config[1], maxtasksperchunk=config[2], quiet=spec.get("quiet", True))
     if "seed" in spec:
@@ -256,6 +279,7 @@ def run_simulated(spec, config, seed, choices=None, result_file=None, knobs=None
         sim.opcode_points = (sim.opcode_points or set()) | {(f_, k_ + d, o) for d in (0, 1) for o in range(0, 160)}
     sink = ListSinkH()
     quiet_context(sink)
+    cache_dir = _maybe_disk_cacher(spec)
     try:
         exp, objs = prebuilt if prebuilt is not None else build_experiment(spec)
     except Exception as e:
@@ -268,7 +292,12 @@ def run_simulated(spec, config, seed, choices=None, result_file=None, knobs=None
     def main():
         out["result"] = exp.run(result_file, **kw)
 
-    outcome = run_sim(sim, main, wall_timeout=300.0)
+    try:
+        outcome = run_sim(sim, main, wall_timeout=300.0)
+    finally:
+        if cache_dir:
+            import shutil
+            shutil.rmtree(cache_dir, ignore_errors=True)
     return sim, outcome, out.get("result"), objs, sink
 
 
@@ -294,6 +323,12 @@ def gen_env_group(rng, idx, allow=("linear", "neighbors", "bandit", "tagged", "s
             if rng.random() < 0.4:
                 ops.append(["chunk", {"cache": rng.random() < 0.8}])
             return {"src": src, "ops": ops}
+    if not small and rng.random() < 0.12:
+        # data that comes through the shared cache: several environments (and so several workers) want the same entry
+        n = weighted(rng, [(3, 1), (8, 2), (20, 1)])
+        key = f"ck{rng.randrange(2)}"
+        ops = [["shuffle_n", {"n": 1 + rng.randrange(3)}]] if rng.random() < 0.6 else []
+        return {"src": ["cached", {"tag": f"C{idx}", "key": key, "n": n, "n_actions": 2 + rng.randrange(2)}], "ops": ops}
     kind = weighted(rng, [(k, 1) for k in allow])
     n = weighted(rng, [(5, 1), (12, 2), (24, 2), (26, 2), (40, 2), (55, 1), (70, 1)]) if not small else weighted(rng, [(3, 1), (6, 2), (10, 1)])
     if kind == "linear":
